@@ -142,11 +142,56 @@ def observed_order(t, mapping):
     return [inv[y] for y in obs], obs
 
 
+KEEP_REGION_EQB = '''Definition keep_region_eqb (g : mol) (del tetra : list Z) (natoms : list (Z * atom)) (nbonds : list (Z * list (Z * bond)))
+    (sts : list Z) (stb : list (Z * Z)) (natoms' : list (Z * atom)) (nbonds' : list (Z * list (Z * bond))) (sts' : list Z) (stb' : list (Z * Z)) : bool :=
+  match g_patcher_keep (m_atoms g) (m_adj g) del tetra natoms nbonds sts stb with
+  | Ok (a, b, c, d) => list_eqb (pair_eqb Z.eqb atom_eqb) a natoms' && list_eqb (pair_eqb Z.eqb (list_eqb (pair_eqb Z.eqb bond_eqb))) b nbonds' &&
+                       list_eqb Z.eqb c sts' && list_eqb (pair_eqb Z.eqb Z.eqb) d stb'
+  | Err _ => false
+  end.
+Definition atoms_region_eqb (g : mol) (ra : list (Z * gratom)) (mp : list (Z * Z)) (mx : Z)
+    (natoms' : list (Z * atom)) (nbonds' : list (Z * list (Z * bond))) (mp' : list (Z * Z)) (mx' : Z) (sts' : list Z) : bool :=
+  match g_patcher_atoms ra (m_atoms g) [] [] mp mx [] with
+  | Ok (a, b, c, d, e) => list_eqb (pair_eqb Z.eqb atom_eqb) a natoms' && list_eqb (pair_eqb Z.eqb (list_eqb (pair_eqb Z.eqb bond_eqb))) b nbonds' &&
+                          list_eqb (pair_eqb Z.eqb Z.eqb) c mp' && (d =? mx') && list_eqb Z.eqb e sts'
+  | Err _ => false
+  end.
+Definition rbonds_region_eqb (g : mol) (tb : list (Z * list (Z * bond))) (mp : list (Z * Z)) (nbonds nbonds' : list (Z * list (Z * bond)))
+    (stb' : list (Z * Z)) : bool :=
+  match g_patcher_rbonds tb (m_adj g) mp nbonds [] with
+  | Ok (b, d) => list_eqb (pair_eqb Z.eqb (list_eqb (pair_eqb Z.eqb bond_eqb))) b nbonds' && list_eqb (pair_eqb Z.eqb Z.eqb) d stb'
+  | Err _ => false
+  end.'''
+
+
+def rbonds_term(repl):
+    """the bonds of the replacement with their labels (order = int(rb), as _patcher reads it)"""
+    return lst([tup(zraw(n), lst([tup(zraw(m), f'(mkBond {zraw(int(rb))} {opt(rb.stereo, b)})') for m, rb in bs.items()]))
+                for n, bs in repl._bonds.items()])
+
+
+def gratoms_term(repl):
+    """the atoms of the replacement as Gen.ReactorBody.gratom records: the class and the raw attributes _patcher reads (no logic here)"""
+    from chython.periodictable import AnyElement, Element
+    rows = []
+    for n, ra in repl.atoms():
+        if isinstance(ra, AnyElement):
+            kind, num, iso, h, hs = 'KAny', 0, None, None, []
+        elif isinstance(ra, Element):
+            kind, num, iso, h, hs = 'KElement', ra.atomic_number, ra.isotope, ra.implicit_hydrogens, []
+        else:
+            kind, num, iso, h, hs = 'KQuery', ra.atomic_number, ra.isotope, None, list(ra.implicit_hydrogens)
+        rows.append(tup(zraw(n), f'mkGR {kind} {zraw(num)} {opt(iso, zraw)} {zraw(ra.charge)} {b(ra.is_radical)} {opt(ra.stereo, b)} {opt(h, zraw)} {zl(hs)}'))
+    return lst(rows)
+
+
 class Batch:
     """Coq cases with shared definitions (graphs / molecules are defined once and referenced by name)"""
 
     def __init__(self):
-        self.defs = ['Import ListNotations.', 'Open Scope Z_scope.']
+        # the cases of the translated region need Gen.ReactorBody: only when the translator accepted the source of this run
+        self.defs = (['From Gen Require Import ReactorBody.\nImport ListNotations.', 'Open Scope Z_scope.\n' + KEEP_REGION_EQB] if REGION_OK[0]
+                     else ['Import ListNotations.', 'Open Scope Z_scope.'])
         self.names = {}
         self.cases = []
         self.meta = []
@@ -593,6 +638,9 @@ def make_template(pat, rep, **kw):
 
 
 _PATCHER_LINES = {}
+LAST_REGION = [None, None, None]   # state of the last traced _patcher call at the start / the end of the translated region
+REGION_BUDGET = {'stereo': 0, 'plain': 0, 'atoms': 0}
+REGION_OK = [False]          # tools/gen_reactorbody.py translated the source of this run (set by run())
 
 
 def patcher_lines():
@@ -601,12 +649,13 @@ def patcher_lines():
         import inspect
         from chython.reactor.base import BaseReactor
         src, first = inspect.getsourcelines(BaseReactor._patcher)
-        want = {'bonds': 'for n, bs in self._replacement._bonds.items():', 'patched': 'patched_atoms = set(new)', 'keep': 'for n, bs in sbonds.items():'}
+        want = {'bonds': 'for n, bs in self._replacement._bonds.items():', 'patched': 'patched_atoms = set(new)', 'keep': 'for n, bs in sbonds.items():',
+                'after': 'for n, a in new.atoms():'}
         for i, line in enumerate(src):
             for k, text in want.items():
                 if line.strip().startswith(text) and k not in _PATCHER_LINES:
                     _PATCHER_LINES[k] = first + i
-        _PATCHER_LINES['ok'] = len(_PATCHER_LINES) == 3
+        _PATCHER_LINES['ok'] = len(_PATCHER_LINES) == 4
     return _PATCHER_LINES
 
 
@@ -628,11 +677,25 @@ def traced_patcher(t, structure, mapping):
         new = frame.f_locals.get('new')
         return (list(new._atoms), [(n, [(k, int(bd)) for k, bd in nb.items()]) for n, nb in new._bonds.items()], dict(frame.f_locals.get('mapping')))
 
+    def region(frame):
+        # the complete state the translated region of _patcher (Gen.ReactorBody.g_patcher_keep) reads / writes, stereo labels included
+        loc = frame.f_locals
+        new = loc['new']
+        atoms = lst([tup(zraw(n), coqmol.atom_term(a)) for n, a in new._atoms.items()])
+        adj = lst([tup(zraw(n), lst([tup(zraw(k), coqmol.bond_term(bd)) for k, bd in nb.items()])) for n, nb in new._bonds.items()])
+        return (atoms, adj, list(loc['stereo_atoms']), list(loc['stereo_bonds']), sorted(loc['to_delete']), len(new._atoms))
+
     def local(frame, event, arg):
         if event == 'line':
             k = at.get(frame.f_lineno)
             if k is not None and k not in box:
                 box[k] = snap(frame)
+            if k == 'bonds' and 'atoms_out' not in box:
+                box['atoms_out'] = region(frame)[:3] + (pairs(frame.f_locals['mapping']), frame.f_locals['max_atom'])
+            if k == 'patched' and 'region_in' not in box:
+                box['region_in'] = region(frame)
+            elif frame.f_lineno == lines.get('after') and 'region_out' not in box:
+                box['region_out'] = region(frame)
         return local
 
     def tracer(frame, event, arg):
@@ -649,6 +712,7 @@ def traced_patcher(t, structure, mapping):
     finally:
         sys.settrace(old)
     states = (box['bonds'], box['patched'], box['keep']) if all(k in box for k in ('bonds', 'patched', 'keep')) else None
+    LAST_REGION[:] = [box.get('region_in'), box.get('region_out'), box.get('atoms_out')]
     return new, box.get('pre'), states
 
 
@@ -686,6 +750,49 @@ def patch_case(ck, batch, t, structure, mapping, tag, describe):
                   {'kind': 'intermediate states of _patcher', 'input': describe, 'after_replacement_atoms': a1, 'after_unmatched_atoms': a3},
                   ctx=(t, structure, dict(mapping0), describe))
         ck.count('patcher:intermediate-states compared')
+    if new is not None:
+        # the TRANSLATED region of _patcher (Gen.ReactorBody.g_patcher_keep, regenerated from the source) run on the state the real
+        # call had at `patched_atoms = set(new)` must give exactly the state the real call has after the two loops: atoms with
+        # hydrogens and stereo labels, adjacency with bond labels, the work lists stereo_atoms / stereo_bonds, in dict / list order
+        rin, rout, aout = LAST_REGION
+        if REGION_OK[0] and aout is not None and REGION_BUDGET['atoms'] < (400 if ck.tier == 'quick' else 1500):
+            # the translated loop over the replacement atoms (g_patcher_atoms) from the empty product must give exactly the state the real
+            # call has when it reaches the loop over the replacement bonds: atoms incl. hydrogen counts and labels taken from the patch,
+            # empty neighbour dicts, the extended mapping, max_atom, stereo_atoms
+            REGION_BUDGET['atoms'] += 1
+            batch.add(f'atoms_region_eqb {m_term} {gratoms_term(t._replacement)} {before} {zraw(max(structure._atoms))} '
+                      f'{aout[0]} {aout[1]} {aout[3]} {zraw(aout[4])} {zl(aout[2])}',
+                      {'kind': 'translated loop of _patcher over the replacement atoms', 'input': describe, 'stereo_atoms': aout[2]},
+                      ctx=(t, structure, dict(mapping0), describe))
+            ck.count('patcher:translated-atoms-loop compared' + (':stereo_atoms used' if aout[2] else ''))
+            if rin is not None and rin[5] <= 40:
+                # the translated loop over the replacement bonds (g_patcher_rbonds) from that state must give exactly the adjacency
+                # (with the labels of the patch) and the work list stereo_bonds the real call has at `patched_atoms = set(new)`
+                pl2 = lambda xs: lst([tup(zraw(x), zraw(y)) for x, y in xs])  # noqa: E731
+                batch.add(f'rbonds_region_eqb {m_term} {rbonds_term(t._replacement)} {aout[3]} {aout[1]} {rin[1]} {pl2(rin[3])}',
+                          {'kind': 'translated loop of _patcher over the replacement bonds', 'input': describe, 'stereo_bonds': rin[3]},
+                          ctx=(t, structure, dict(mapping0), describe))
+                ck.count('patcher:translated-bonds-loop compared' + (':stereo_bonds used' if rin[3] else ''))
+        if not REGION_OK[0]:
+            ck.count('patcher:translated-region not compared (translator refused the source)')
+        elif rin is None or rout is None:
+            ck.count('patcher:translated-region-not-observable')
+            batch.unobservable += 1
+        else:
+            kind = 'stereo' if (rout[2] or rout[3] or 'Some true)' in rout[0] or 'Some false)' in rout[0]) else 'plain'
+            if rout[5] <= 40 and REGION_BUDGET[kind] < ({"stereo": 150, "plain": 60}[kind] if ck.tier == 'quick' else {"stereo": 600, "plain": 300}[kind]):
+                REGION_BUDGET[kind] += 1
+                try:
+                    tetra = list(structure.stereogenic_tetrahedrons)
+                except Exception:
+                    tetra = None
+                if tetra is not None:
+                    pl = lambda xs: lst([tup(zraw(x), zraw(y)) for x, y in xs])  # noqa: E731
+                    batch.add(f'keep_region_eqb {m_term} {zl(rin[4])} {zl(tetra)} {rin[0]} {rin[1]} {zl(rin[2])} {pl(rin[3])} '
+                              f'{rout[0]} {rout[1]} {zl(rout[2])} {pl(rout[3])}',
+                              {'kind': 'translated region of _patcher (atoms the template does not name, surviving bonds, stereo work lists)',
+                               'input': describe, 'stereo_atoms': rout[2], 'stereo_bonds': rout[3]}, ctx=(t, structure, dict(mapping0), describe))
+                    ck.count(f'patcher:translated-region compared:{kind}' + (':work lists used' if rout[2] or rout[3] else ''))
     if new is not None and pre is None and not t._fix_rings:
         ck.count('patcher:labels-before-fix_stereo-not-observable')
         batch.unobservable += 1
@@ -737,6 +844,35 @@ def patch_case(ck, batch, t, structure, mapping, tag, describe):
     return new
 
 
+def region_only_case(ck, batch, t, structure, mapping, describe):
+    """only the state-level cases of the translated loops over the replacement (atoms, bonds) for one real _patcher call"""
+    mapping = dict(mapping)
+    mapping0 = dict(mapping)
+    before = pairs(mapping)
+    m_term = batch.define('m', coqmol.mol_term(structure))
+    try:
+        traced_patcher(structure=structure, t=t, mapping=mapping)
+    except Exception:
+        ck.count('patcher:double bond rewritten:call raised')
+        return
+    rin, _, aout = LAST_REGION
+    if not REGION_OK[0]:
+        return
+    if rin is None or aout is None:
+        ck.count('patcher:translated-region-not-observable')
+        batch.unobservable += 1
+        return
+    pl2 = lambda xs: lst([tup(zraw(x), zraw(y)) for x, y in xs])  # noqa: E731
+    ctx = (t, structure, dict(mapping0), describe)
+    batch.add(f'atoms_region_eqb {m_term} {gratoms_term(t._replacement)} {before} {zraw(max(structure._atoms))} '
+              f'{aout[0]} {aout[1]} {aout[3]} {zraw(aout[4])} {zl(aout[2])}',
+              {'kind': 'translated loop of _patcher over the replacement atoms', 'input': describe, 'stereo_atoms': aout[2]}, ctx=ctx)
+    batch.add(f'rbonds_region_eqb {m_term} {rbonds_term(t._replacement)} {aout[3]} {aout[1]} {rin[1]} {pl2(rin[3])}',
+              {'kind': 'translated loop of _patcher over the replacement bonds', 'input': describe, 'stereo_bonds': rin[3]}, ctx=ctx)
+    ck.count('patcher:translated-bonds-loop compared:double bond rewritten' + (':stereo_bonds used' if rin[3] else ''))
+    ck.case(('patch-region', describe, before), nontrivial=bool(rin[3]))
+
+
 def corr_patcher(ck):
     from chython import smiles, smarts
     from chython.reactor import Reactor
@@ -744,6 +880,7 @@ def corr_patcher(ck):
     from chython._functions import lazy_product
     rng = random.Random(f'{ck.seed}:c16p')
     batch = Batch()
+    REGION_BUDGET.update(stereo=0, plain=0, atoms=0)
     quick = ck.tier == 'quick'
     small = ['CCO', 'CC(=O)O', 'CCN', 'NCCO', 'CCOCC', 'c1ccccc1Cl', 'CC(=O)OCC', 'C1N2CC1C2', 'C1N(F)N(C1)Cl', 'OC1CC2CC1C2', 'CC#N',
              'C[N+](C)(C)CC(=O)[O-]', 'CC(N)C(=O)O', 'Brc1ccc(O)cc1', 'C[C@H](N)C(=O)O', 'C/C=C/CO', 'OCC1CO1', 'CC(C)OCc1ccccc1',
@@ -808,6 +945,21 @@ def corr_patcher(ck):
     patch_case(ck, batch, t, smiles('CCO'), {}, 'malformed', 'CCO empty mapping')
     t = make_template('[C:1][O:2]', '[C:1][O:2][C:3]', fix_aromatic_rings=False)
     patch_case(ck, batch, t, smiles('CCO'), {}, 'malformed', 'CCO empty mapping, all atoms new')
+    # replacements that rewrite a (labelled) double bond with its own order, or with another one: the translated loop over the
+    # replacement bonds must queue exactly the bonds the real call queues in stereo_bonds (same order and a label in the structure)
+    for pat, rep in (('[C:1]=[C:2]', '[A:1]=[A:2]'), ('[C:1]=[C:2]', '[A:1]-[A:2]'), ('[C:1]=[C:2][O,N:3]', '[A:1]=[A:2][A:3]')):
+        t = make_template(pat, rep, fix_aromatic_rings=False)
+        hits = 0
+        for smi in CISTRANS + ENOLS:
+            try:
+                m = smiles(smi)
+            except Exception:
+                continue
+            for k, mp in enumerate(t._pattern.get_mapping(m, automorphism_filter=False)):
+                if k >= 2 or hits >= (16 if quick else 60):
+                    break
+                region_only_case(ck, batch, t, m, mp, f'{smi} / {pat}>>{rep}')
+                hits += 1
     ok, failing, log = batch.run('c16p')
     ck.oblige(f'correspondence: structure of BaseReactor._patcher results == Coq patcher_with {MODEL_FUNCTION} '
               '(atom/neighbour dict order, element, isotope, charge, radical, copied hydrogens, bond orders, extended mapping)',
@@ -2022,11 +2174,33 @@ def search_prepared_multistep(ck):
                         break
     ck.extra['prepared_multistep_sets_checked'] = n
 
+def translator_accepts():
+    """does tools/gen_reactorbody.py translate the source of this run (then coq/gen/ReactorBody.v is the current one)"""
+    import os
+    import tempfile
+    import gen_reactorbody
+    fd, tmp = tempfile.mkstemp(prefix='c16_region_', suffix='.v')
+    os.close(fd)
+    try:
+        gen_reactorbody.main(common.REPO, tmp)
+        return True
+    except Exception:
+        return False
+    finally:
+        try:
+            os.remove(tmp)
+        except OSError:
+            pass
+
+
 def run(ck):
     ck.trusted += ['correspondence runner harness/checks/C16.py + harness/coqcases.py + harness/coqmol.py', 'CachedMethods shim harness/boot.py',
                    'CPython 3.12.1', 'RDKit 2026.3 (search only: GetMolFrags as second component oracle)']
     ck.assumptions += [
-        'coq/model/Reactor.v is a hand-written restatement of BaseReactor.__init__ (_to_delete), _get_deleted, the structural part of _patcher and fix_mapping_overlap; '
+        'coq/gen/ReactorBody.v = the body of _get_deleted and the four structural loops of _patcher (base.py lines 43-73, 89-169) TRANSLATED from the source of this run '
+        '(tools/gen_reactorbody.py) and proved equal to / in agreement with coq/model/Reactor.v for all inputs (C16_translated_*, C16_patcher_is_translated_text); '
+        'the vocabulary of the translation (sets as lists, copy() = plain_atom / copy_atom / plain, element constructor, truthy_get, skipped coordinates) is tied by the state-level cases; '
+        'coq/model/Reactor.v is otherwise a hand-written restatement of BaseReactor.__init__ (_to_delete), _get_deleted, the structural part of _patcher and fix_mapping_overlap; '
         'tie = correspondence on every graph with <= 4 atoms x matched set x to-delete subset, random cyclic graphs, corpus molecules, '
         'template matches and malformed mappings',
         'the iteration order of the Python set to_delete is an input of the model (the runner passes the observed order); the theorems '
@@ -2051,7 +2225,10 @@ def run(ck):
     # generated files C16 depends on: the tetrahedron / alkene translation tables (through Proofs.StereoProofs, C12) and
     # Gen.ReactorShape = digests + branch conditions of every reactor function the hand-written models mirror (own translator
     # tools/gen_reactorshape.py; C16_reactor_shape_unchanged / C16_reactor_conditions_unchanged stop compiling on any edit)
+    # Gen.ReactorBody = the body of _get_deleted and the two structure loops of _patcher, translated statement by statement
+    # (tools/gen_reactorbody.py); C16_translated_* prove them equal to the hand-written model
     proved = timed('proof steps', lambda c: common.standard_proof_steps(c, translators=['stereo', 'reactorshape', 'reactorbody']))
+    REGION_OK[0] = translator_accepts()
     tied = timed('corr to_delete', corr_to_delete)
     tied = timed('corr get_deleted', corr_get_deleted) and tied
     tied = timed('corr patcher', corr_patcher) and tied
